@@ -196,12 +196,12 @@ static Iso run_isolated(World &w, const std::string &prop, const Knobs &k, const
         struct pollfd pf = {fd[0], POLLIN, 0};
         int pr = poll(&pf, 1, 500);
         if (pr > 0) { ssize_t n = read(fd[0], tmp, sizeof tmp); if (n <= 0) break; buf.append(tmp, n); }
-        else if (now_s() - t0 > 30) { hang = true; kill(pid, SIGKILL); break; }
+        else if (now_s() - t0 > 12) { hang = true; kill(pid, SIGKILL); break; }
     }
     close(fd[0]);
     int st = 0; waitpid(pid, &st, 0);
     out.choices.assign(g_shm->r[MAXW].choices, g_shm->r[MAXW].choices + g_shm->r[MAXW].nchoices);
-    if (hang) { out.cls = "HANG"; out.detail = "run did not terminate within 30 s wall"; out.hash = g_shm->r[MAXW].trace_hash; out.crashed = true; return out; }
+    if (hang) { out.cls = "HANG"; out.detail = "run did not terminate within 12 s wall (a normal run takes milliseconds)"; out.hash = g_shm->r[MAXW].trace_hash; out.crashed = true; return out; }
     if (WIFEXITED(st) && WEXITSTATUS(st) == 0) {
         std::vector<std::string> f; size_t a = 0;
         for (size_t i = 0; i < buf.size(); i++) if (buf[i] == '\x1f') { f.push_back(buf.substr(a, i - a)); a = i + 1; }
@@ -414,7 +414,7 @@ int sim_main(int argc, char **argv, World &w) {
     uint64_t *hashes = hash_n ? (uint64_t *)mmap(nullptr, hash_n * 8, PROT_READ | PROT_WRITE, MAP_SHARED | MAP_ANONYMOUS, -1, 0) : nullptr;
 
     double t0 = now_s();
-    struct WP { pid_t pid; int fd; std::string buf; bool done; } wp[MAXW];
+    struct WP { pid_t pid; int fd; std::string buf; bool done; bool killed; } wp[MAXW];
     auto spawn = [&](int me, uint64_t first) {
         int fd[2]; if (pipe(fd)) { perror("pipe"); exit(2); }
         fflush(stdout); fflush(stderr);
@@ -423,7 +423,7 @@ int sim_main(int argc, char **argv, World &w) {
             std::string ef = g_errdir == "/dev/null" ? "/dev/null" : g_errdir + "/worker" + std::to_string(me) + ".err";
             int e = open(ef.c_str(), O_WRONLY | O_CREAT | O_TRUNC, 0644); if (e >= 0) { dup2(e, 2); close(e); }
             worker_loop(w, prop, seed, N, W, me, first, fd[1], tlimit, hashes, hash_n); _exit(0); }
-        close(fd[1]); wp[me].pid = pid; wp[me].fd = fd[0]; wp[me].buf.clear(); wp[me].done = false;
+        close(fd[1]); wp[me].pid = pid; wp[me].fd = fd[0]; wp[me].buf.clear(); wp[me].done = false; wp[me].killed = false;
     };
     for (int i = 0; i < W; i++) spawn(i, i);
     std::vector<RawViol> raw; int infra = 0; std::vector<std::string> infra_msgs;
@@ -448,7 +448,7 @@ int sim_main(int argc, char **argv, World &w) {
                     if (wp[i].done) { live--; }
                     else {      // died inside run cur: that is an observation about the code under test
                         uint64_t idx = g_shm->w[i].cur; RawViol v; v.idx = idx;
-                        v.cls = (WIFEXITED(st) && WEXITSTATUS(st) == 77) ? "MEMORY" : WIFSIGNALED(st) ? "CRASH-SIG" + std::to_string(WTERMSIG(st)) : "CRASH-EXIT" + std::to_string(WEXITSTATUS(st));
+                        v.cls = wp[i].killed ? "HANG" : (WIFEXITED(st) && WEXITSTATUS(st) == 77) ? "MEMORY" : WIFSIGNALED(st) ? "CRASH-SIG" + std::to_string(WTERMSIG(st)) : "CRASH-EXIT" + std::to_string(WEXITSTATUS(st));
                         raw.push_back(v); g_shm->w[i].viol++;
                         if (idx + W < N && !g_shm->stop) spawn(i, idx + W); else live--;
                     }
@@ -458,7 +458,7 @@ int sim_main(int argc, char **argv, World &w) {
         // watchdog: a worker stuck in one run for 60 s wall is killed (reported as HANG for that run)
         for (int i = 0; i < W; i++) if (wp[i].fd >= 0) {
             uint64_t c = g_shm->w[i].cur; if (c != last_cur[i]) { last_cur[i] = c; last_progress[i] = now_s(); }
-            else if (now_s() - last_progress[i] > 60 && g_shm->w[i].started == 1) { kill(wp[i].pid, SIGKILL); last_progress[i] = now_s(); }
+            else if (now_s() - last_progress[i] > 20 && g_shm->w[i].started == 1) { wp[i].killed = true; kill(wp[i].pid, SIGKILL); last_progress[i] = now_s(); }
         }
         size_t untainted = 0; for (auto &v : raw) if (v.taint.empty()) untainted++;
         if (untainted >= 48 || raw.size() >= 400) g_shm->stop = 1;
